@@ -66,3 +66,12 @@ meta["confirmed_by_lead"] = rec
 meta["what_was_run"] = "tools/seedconfirm.py: git apply in a scratch worktree, go build ./... (with and without -tags verif), go test of the touched packages with/without the patch, the demo with/without the patch, then tools/seedtest.py <patch> " + " ".join(props)
 json.dump(meta, open(os.path.join(dst, "meta.json"), "w"), indent=1)
 print(json.dumps(rec, indent=1)[:3000])
+
+# alt-cleanup: harness binaries built against the scratch worktree
+import glob as _glob
+_tag = "-alt" + hashlib.sha1(os.path.abspath(wt).encode()).hexdigest()[:8]
+for _f in _glob.glob("/verif/harness/bin/*" + _tag) + _glob.glob("/verif/harness/go-alt*" + _tag + "*"):
+    try:
+        os.remove(_f)
+    except OSError:
+        pass
